@@ -33,6 +33,9 @@ TEXTBOOK = {
     "rule-handle-between-terminals": 'grammar cat; @left "*"; @left "x" <e = e e> "("; start = e; e = e e | e "*" e | "x" | "(" e ")";',
     "two-rule-handles-then-terminal": 'grammar g; @left <e = e e> <e = e o e> "x"; @left "(" "+" "-"; start = e; e = e e | e o e | "x" | "(" e ")"; o = "+" | "-";',
     "superset-target-all-states-kept": 'grammar g; @right "x" "y"; start = "y" "x" | "x" b "y"; a = "x" |  | start; b = start start "y" | "x" "y"; c = "y" a "y" | b c c b;',
+    "none-level-between-left-levels": 'grammar g; @left "*"; @none "!"; @left "&"; start = e; e = e "*" e | e "&" e | "!" e | "n";',
+    "none-level-first": 'grammar g; @none "<"; @left "+"; @left "|"; start = e; e = e "+" e | e "|" e | e "<" e | "n";',
+    "none-level-in-the-middle": 'grammar g; @left "+"; @none "<"; @left "|"; start = e; e = e "+" e | e "|" e | e "<" e | "n";',
     "binary-rule-handle": 'grammar g; @left <e = e "+" e>; start = e; e = e "+" e | "n";',
 }
 
@@ -108,8 +111,14 @@ def gen_operator_grammar(rng):
     while pool:
         k = rng.randint(1, min(2, len(pool)))
         levels.append((rng.choice(["@left", "@right"]), [pool.pop() for _ in range(k)]))
-    directives = " ".join("%s %s;" % (a, " ".join('"%s"' % o for o in os_)) for a, os_ in levels)
     alts = " | ".join('e "%s" e' % o for o in ops)
+    if rng.random() < 0.35:
+        # a prefix operator on a non-associative level somewhere among the others (its place in the order decides how `! a + b` is read)
+        levels = list(levels)
+        levels.insert(rng.randint(0, len(levels)), ("@none", ["!"]))
+        lines = ["%s %s;" % (a, " ".join('"%s"' % o for o in os_)) for a, os_ in levels]
+        return 'grammar g; %s start = e; e = %s | "!" e | "(" e ")" | "n";' % (" ".join(lines), alts), levels
+    directives = " ".join("%s %s;" % (a, " ".join('"%s"' % o for o in os_)) for a, os_ in levels)
     return 'grammar g; %s start = e; e = %s | "(" e ")" | "n";' % (directives, alts), levels
 
 
@@ -128,11 +137,14 @@ def dictated_expr_tree(tokens, levels):
             x = expr(0)
             pos[0] += 1
             return ("par", x)
+        if t == "!":
+            # the operand takes the operators that bind tighter than the prefix operator (reduce `! e` against a looser one)
+            return ("pre", "!", expr(prec["!"][0] + 1))
         return "n"
 
     def expr(minp):
         left = atom()
-        while pos[0] < len(tokens) and tokens[pos[0]] in prec and prec[tokens[pos[0]]][0] >= minp:
+        while pos[0] < len(tokens) and tokens[pos[0]] in prec and tokens[pos[0]] != "!" and prec[tokens[pos[0]]][0] >= minp:
             op = tokens[pos[0]]
             p, assoc = prec[op]
             pos[0] += 1
@@ -148,7 +160,9 @@ def gen_expr(rng, ops, depth):
     k = rng.random()
     if k < 0.2:
         return ["("] + gen_expr(rng, ops, depth - 1) + [")"]
-    return gen_expr(rng, ops, depth - 1) + [rng.choice(ops)] + gen_expr(rng, ops, depth - 1)
+    if "!" in ops and k < 0.45:
+        return ["!"] + gen_expr(rng, ops, depth - 1)
+    return gen_expr(rng, ops, depth - 1) + [rng.choice([o for o in ops if o != "!"])] + gen_expr(rng, ops, depth - 1)
 
 
 def table_of_dump(sp, tb):
@@ -356,6 +370,8 @@ def shape(T, t):
         return ("par", kids[1])
     if len(kids) == 3:
         return ("bin", kids[1], kids[0], kids[2])
+    if len(kids) == 2 and kids[0] == "!":
+        return ("pre", "!", kids[1])
     return ("?", kids)
 
 
@@ -599,7 +615,10 @@ def check(tier):
         att_dir = [i for i, x in enumerate(insts) if isinstance(x[4], list) and i not in bad]
         fail_triv = [i for i in att_triv if i in inexact]
         fail_dir = [i for i in att_dir if i in inexact]
-        fail_op = [i for i in fail_dir if meta[i][2] is not None]
+        # (a prefix operator on a low level makes a deep priority conflict: the shallow classification cannot certify such tables;
+        #  they are compared with the reference construction and run on expressions, like the other directive grammars)
+        binary_only = lambda lv: lv is not None and all("!" not in os_ for _, os_ in lv)
+        fail_op = [i for i in fail_dir if binary_only(meta[i][2])]
         rep.cov["exactness_certificates"] = {
             "without_directives": {"attempted": len(att_triv), "certified": len(att_triv) - len(fail_triv)},
             "with_directives": {"attempted": len(att_dir), "certified": len(att_dir) - len(fail_dir),
@@ -608,7 +627,7 @@ def check(tier):
         rep.obligation("exactness: %d of %d accepted grammars whose directives forbid nothing: the table accepts EXACTLY the grammar's sentences "
                        "(any length) and no sentence has two parse trees (exact_check, kernel-evaluated per grammar)"
                        % (len(att_triv) - len(fail_triv), len(att_triv)), not fail_triv)
-        n_op = sum(1 for i in att_dir if meta[i][2] is not None)
+        n_op = sum(1 for i in att_dir if binary_only(meta[i][2]))
         rep.obligation("exactness with directives: %d of %d operator grammars: the table accepts exactly the trees the precedence table allows, "
                        "builds them, and they are unique (other directive grammars: %d of %d certified, the rest only compared with the reference)"
                        % (n_op - len(fail_op), n_op, len(att_dir) - n_op - (len(fail_dir) - len(fail_op)), len(att_dir) - n_op), not fail_op)
